@@ -396,11 +396,11 @@ def requestURI (g : GoReq) : Bytes :=
 def methodLacksBody (m : Bytes) : Bool :=
   m == bs "GET" || m == bs "HEAD" || m == bs "DELETE" || m == bs "OPTIONS" || m == bs "PROPFIND" || m == bs "SEARCH"
 
-/-- `shouldSendContentLength` for an outgoing request with known length `n ≥ 0` -/
+/-- `shouldSendContentLength` for an outgoing request with known length `n ≥ 0`
+    (`TransferEncoding` is empty, so the `isIdentity` branch never applies) -/
 def sendsContentLength (method : Bytes) (n : Int) : Bool :=
   if n > 0 then true
-  else if method == bs "POST" || method == bs "PUT" || method == bs "PATCH" then true
-  else !(method == bs "GET" || method == bs "HEAD")
+  else method == bs "POST" || method == bs "PUT" || method == bs "PATCH"
 
 def lowerFields (h : HMap) : List (Bytes × List Bytes) :=
   h.map fun e => (lower e.1, e.2)
@@ -439,7 +439,7 @@ def writeRequest (hop : Hop) (auth : Option Bytes) (g : GoReq) : OutMsg :=
   let excluded := [bs "Host", bs "User-Agent", bs "Content-Length", bs "Transfer-Encoding", bs "Trailer"]
   let rest := lowerFields (h.filter fun e => !excluded.contains e.1)
   let extra : List (Bytes × List Bytes) :=
-    (if (HMap.get h (bs "Accept-Encoding")).isNone && (HMap.get h (bs "Range")).isNone && g.method != bs "HEAD"
+    (if (goGet h (bs "Accept-Encoding")).isEmpty && (goGet h (bs "Range")).isEmpty && g.method != bs "HEAD"
      then [(bs "accept-encoding", [bs "gzip"])] else []) ++
     (match hop, auth with
      | .proxy _, some a => if g.scheme == bs "http" then [(bs "proxy-authorization", [a])] else []
